@@ -501,6 +501,11 @@ func parseAttrName(buf []byte) (xmpns.Property, int, error) {
 		if buf[b] == ':' {
 			break
 		}
+		if buf[b] == '=' || isSpace(buf[b]) {
+			// a name without a namespace prefix (the legacy about=''): the colon
+			// is not looked for beyond the name, in values or later names
+			return xmpns.IdentifyProperty(nil, buf[a:b]), b, nil
+		}
 	}
 	for c = b + 2; c < len(buf); c++ {
 		if buf[c] == '=' || isSpace(buf[c]) {
@@ -515,6 +520,10 @@ func parseTagName(buf []byte) (xmpns.Property, int, error) {
 	for ; a < len(buf); a++ {
 		if buf[a] == ':' {
 			break
+		}
+		if buf[a] == '>' || isSpace(buf[a]) || buf[a] == '/' {
+			// a name without a namespace prefix
+			return xmpns.IdentifyProperty(nil, buf[:a]), a, nil
 		}
 	}
 	for b = a + 1; b < len(buf); b++ {
